@@ -27,7 +27,7 @@ as `~`, empty lists / tables as `_`.
 
 `g<op>` = the same operation through the definitions REGENERATED from the source (`Generated.Domains`, `Generated.GettextHdr`,
 `Generated.HdrChk`; proved equal to the model in `Props/C15Tie.lean`): `gparse`, `gemail` (→ `ok <special> <dotless>` | `err <exc>`),
-`gcomments`, `gproject`, `gtranslator`; an exception is `err <name>`.
+`gcomments`, `gmime` (`err crash` for any exception), `gproject`, `gtranslator`; an exception is `err <name>`.
 -/
 namespace I18n.Driver.Hdr
 open I18n I18n.Hdr I18n.Generated
@@ -103,8 +103,8 @@ def entryOf (s : String) : Entry :=
 
 def entriesOf (s : String) : List Entry := (listOf "|" s).map entryOf
 
-/-- C20's charset fragment on the measured classification of every encoding of the line -/
-def charsetCheck (isTemplate : Bool) (chars encs : String) : CharsetCheck :=
+/-- the world of C20's charset fragment as measured for every encoding of the line: the codec environment and `ctx.language`'s characters -/
+def charsetEnv (chars encs : String) : Charset.Env × Option (Option (List (List Nat))) :=
   let characters : Option (Option (List (List Nat))) :=
     if chars == "~" then none else if chars == "^" then some none else some (some (Charset.charsOf chars))
   let cl := match characters with | some (some c) => c | _ => []
@@ -126,7 +126,12 @@ def charsetCheck (isTemplate : Bool) (chars encs : String) : CharsetCheck :=
     encode := fun n text => match find n with
       | some (_, _, _, j, per) => Charset.oracle cl j per text
       | none => .crash }
-  fun n => I18n.Charset.checkCharset env n isTemplate characters
+  (env, characters)
+
+/-- C20's charset fragment on the measured classification of every encoding of the line -/
+def charsetCheck (isTemplate : Bool) (chars encs : String) : CharsetCheck :=
+  let w := charsetEnv chars encs
+  fun n => I18n.Charset.checkCharset w.1 n isTemplate w.2
 
 def handle (op : String) (args : List String) : String :=
   match op, args with
@@ -182,6 +187,11 @@ def handle (op : String) (args : List String) : String :=
     match Generated.HdrChk.check_comments (ext [] [] [] [] []) (t == "1") (S text) [] with
     | .error e => "err " ++ e.name
     | .ok ts => "ok " ++ showTags ts
+  | "gmime", [t, ls, chars, encs] =>
+    let w := charsetEnv chars encs
+    match Generated.HdrChk.check_mime (ext [] [] [] [] []) w.1 (metaOf ls) (t == "1") w.2 [] with
+    | .error _ => "err crash"
+    | .ok (ts, enc) => s!"ok {showTags ts} enc={match enc with | some e => H e | none => "~"}"
   | "gproject", [ls, addrT, schemeT, lowerT] =>
     match Generated.HdrChk.check_project (ext (tableOf lowerT) (tableOf addrT) (tableOf schemeT) [] []) (metaOf ls) [] with
     | .error e => "err " ++ e.name
